@@ -87,6 +87,47 @@ func (w *vRegWorld) update(ks []int) error {
 	return w.ls.S.UpdatePublicKeys(w.pubs(ks)...)
 }
 
+// vRefusedUpdate marks, in the list of updates, an UpdatePublicKeys call that the server must
+// refuse (it contains an invalid key): it passes the update gate but is not a step of the model.
+var vRefusedUpdate = []int{-1}
+
+func vIsRefusedUpdate(ks []int) bool { return len(ks) == 1 && ks[0] == -1 }
+
+// updateInvalid calls UpdatePublicKeys with the given valid keys and one key of a wrong length
+// at position pos (clamped); the call must be refused.
+func (w *vRegWorld) updateInvalid(ks []int, badLen, pos int) error {
+	verifrt.Name("admin")
+	w.mu.Lock()
+	w.updates = append(w.updates, vRefusedUpdate)
+	w.mu.Unlock()
+	pubs := w.pubs(ks)
+	if pos > len(pubs) {
+		pos = len(pubs)
+	}
+	bad := ed25519.PublicKey(make([]byte, badLen))
+	for i := range bad {
+		bad[i] = byte(0xA0 + i)
+	}
+	args := append(append(append([]ed25519.PublicKey(nil), pubs[:pos]...), bad), pubs[pos:]...)
+	return w.ls.S.UpdatePublicKeys(args...)
+}
+
+func (w *vRegWorld) listed(k int) bool {
+	for _, p := range w.ls.S.GetConnectedPeerPublicKeys() {
+		if p == w.keys[k].Static() {
+			return true
+		}
+	}
+	return false
+}
+
+// a server-initiated call to key k: nil, ErrNotConnected, or another error (e.g. the deadline)
+func (w *vRegWorld) serverCall(k int, d time.Duration) error {
+	ctx, cancel := context.WithTimeout(context.Background(), d)
+	defer cancel()
+	return w.ls.S.Invoke(peer.NewCallContext(ctx, w.keys[k].Static()), "Echo", vAppMsg("x", nil, ""), &message.Response{})
+}
+
 func (w *vRegWorld) die(c *websocket.Conn, k int) {
 	verifrt.Name("harness")
 	verifrt.Pre(fmt.Sprintf("harness.die:%d", k))
@@ -105,6 +146,31 @@ func vProbe(c *websocket.Conn) string {
 		return "closed"
 	}
 	c.SetReadDeadline(time.Now().Add(400 * time.Millisecond))
+	for {
+		_, b, err := c.ReadMessage()
+		if err != nil {
+			if ne, ok := err.(interface{ Timeout() bool }); ok && ne.Timeout() {
+				return "zombie"
+			}
+			return "closed"
+		}
+		m := &message.Message{}
+		if proto.Unmarshal(b, m) == nil && m.GetResponse() != nil && m.GetResponse().GetCallId() == id {
+			return "served"
+		}
+	}
+}
+
+// vProbeWait is vProbe with a chosen patience, for sessions that MUST be served (a loaded
+// machine may take longer than vProbe's 400 ms to answer).
+func vProbeWait(c *websocket.Conn, d time.Duration) string {
+	id := fmt.Sprintf("00000000-0000-4000-8000-%012d", time.Now().UnixNano()%1000000000000)
+	c.SetWriteDeadline(time.Now().Add(d))
+	if err := c.WriteMessage(websocket.BinaryMessage, vSizedRequest(100, id)); err != nil {
+		return "closed"
+	}
+	c.SetReadDeadline(time.Now().Add(d))
+	defer c.SetReadDeadline(time.Time{})
 	for {
 		_, b, err := c.ReadMessage()
 		if err != nil {
@@ -189,7 +255,7 @@ func (w *vRegWorld) labels(tr []verifrt.Ev) ([]string, []string) {
 				}
 			}
 		case e.Label == vLUpdate2 && e.Kind == "post":
-			if nu < len(w.updates) {
+			if nu < len(w.updates) && !vIsRefusedUpdate(w.updates[nu]) {
 				add(fmt.Sprintf("RL (LUpdate %s)", vCoqNats(w.updates[nu])), fmt.Sprintf("update %v", w.updates[nu]))
 			}
 			nu++
@@ -289,6 +355,9 @@ func TestVerifC11Child(t *testing.T) {
 		t.Skip("child only")
 	}
 	r := vNewRand(vSeed() + 11)
+	// the choices of the update scenarios come from a generator of their own (streams of neighbouring seeds of
+	// vRand are one stream shifted by one draw)
+	r2 := vNewRand((vSeed()+1)*1000003 + 0x1112)
 	rounds := 2
 	if vThorough() {
 		rounds = 12
@@ -429,5 +498,209 @@ func TestVerifC11Child(t *testing.T) {
 			}
 			return ""
 		})
+		// a refused update (one key of a wrong length among valid ones) changes nothing: every session stays
+		// served and listed, also those of connected keys missing from its valid arguments, and the allow-list
+		// stays what it was (a listed key still gets in, a key only named in the refused update does not)
+		badLen := []int{31, 33, 0, 64, 1}[r2.Intn(5)]
+		badPos := r2.Intn(3)
+		vRegScenario(r, fmt.Sprintf("refused-update/len=%d,pos=%d", badLen, badPos), []int{0, 1, 2}, func(w *vRegWorld) string {
+			a, e1 := w.dial(0)
+			b, e2 := w.dial(1)
+			if e1 != nil || e2 != nil {
+				return "handshake-failed"
+			}
+			if !vWaitUntil(3*time.Second, func() bool { return w.ls.S.OpenConnections() == 2 }) {
+				return "handshake-failed/not-registered"
+			}
+			// valid arguments: connected key 1 and the unlisted key 3; connected key 0 and listed key 2 are missing
+			if err := w.updateInvalid([]int{1, 3}, badLen, badPos); err == nil {
+				return "invalid-update-accepted"
+			}
+			if n := w.ls.S.OpenConnections(); n != 2 || !w.listed(0) || !w.listed(1) {
+				return fmt.Sprintf("refused-update-dropped-a-session/open=%d listed0=%v listed1=%v", n, w.listed(0), w.listed(1))
+			}
+			if err := w.serverCall(0, 150*time.Millisecond); err == ErrNotConnected {
+				return "refused-update-dropped-a-session/server-call-to-k0-not-routed"
+			}
+			if pa, pb := vProbeWait(a, 3*time.Second), vProbeWait(b, 3*time.Second); pa != "served" || pb != "served" {
+				return fmt.Sprintf("refused-update-dropped-a-session/k0=%s k1=%s", pa, pb)
+			}
+			c, err := w.dial(2)
+			if err != nil || vProbeWait(c, 3*time.Second) != "served" {
+				return "refused-update-changed-the-allow-list/listed-key-2-refused"
+			}
+			if d, err := w.dial(3); err == nil && vServed(d) {
+				return "refused-update-changed-the-allow-list/unlisted-key-3-served"
+			}
+			return ""
+		})
+		// key rotation: an update of equal or larger length that takes the key of a connected peer off the list
+		type rot struct {
+			name    string
+			to      []int
+			revoked []int
+			stay    []int
+			fresh   int
+		}
+		for _, rc := range []rot{
+			{"rotate-equal-length", []int{1, 2}, []int{0}, []int{1}, 2},
+			{"rotate-larger", []int{1, 2, 3}, []int{0}, []int{1}, 3},
+			{"rotate-all-equal-length", []int{2, 3}, []int{0, 1}, nil, 2},
+		} {
+			rc := rc
+			to := append([]int(nil), rc.to...)
+			for i := len(to) - 1; i > 0; i-- { // the order of the new list is arbitrary
+				j := r2.Intn(i + 1)
+				to[i], to[j] = to[j], to[i]
+			}
+			vRegScenario(r, rc.name, []int{0, 1}, func(w *vRegWorld) string {
+				conns := map[int]*websocket.Conn{}
+				for _, k := range []int{0, 1} {
+					c, err := w.dial(k)
+					if err != nil {
+						return "handshake-failed"
+					}
+					conns[k] = c
+				}
+				if !vWaitUntil(3*time.Second, func() bool { return w.ls.S.OpenConnections() == 2 }) {
+					return "handshake-failed/not-registered"
+				}
+				if err := w.update(to); err != nil {
+					return "update-failed/" + err.Error()
+				}
+				// right after the update has returned
+				if n := w.ls.S.OpenConnections(); n != len(rc.stay) {
+					return fmt.Sprintf("revoked-session-still-listed-after-update/open=%d want=%d update=%v", n, len(rc.stay), to)
+				}
+				for _, k := range rc.revoked {
+					if w.listed(k) {
+						return fmt.Sprintf("revoked-session-still-listed-after-update/k%d update=%v", k, to)
+					}
+					if err := w.serverCall(k, 200*time.Millisecond); err != ErrNotConnected {
+						return fmt.Sprintf("server-call-to-revoked-key-not-refused/k%d: %v", k, err)
+					}
+					if vServed(conns[k]) {
+						return fmt.Sprintf("revoked-session-still-served/k%d update=%v", k, to)
+					}
+				}
+				for _, k := range rc.stay {
+					if !w.listed(k) || vProbeWait(conns[k], 3*time.Second) != "served" {
+						return fmt.Sprintf("bystander-disturbed-by-revocation/k%d update=%v", k, to)
+					}
+				}
+				c, err := w.dial(rc.fresh)
+				if err != nil || vProbeWait(c, 3*time.Second) != "served" {
+					return fmt.Sprintf("newly-listed-key-refused/k%d update=%v", rc.fresh, to)
+				}
+				if d, err := w.dial(rc.revoked[0]); err == nil && vServed(d) {
+					return fmt.Sprintf("revoked-key-got-a-new-session/k%d update=%v", rc.revoked[0], to)
+				}
+				return ""
+			})
+		}
 	}
+}
+
+// ---- a peer that is dead from the very beginning leaves the view within a bounded time.
+// Run with transport.go's durations scaled (VERIF_SCALE, as for C17): a raw peer completes the
+// handshake and then never reads, so it answers no ping at all (gorilla answers pings only while
+// ReadMessage is being called) although its socket stays open - exactly a peer whose host has
+// vanished. The server must notice by itself: within pongWait + pingPeriod (+ slack) the session
+// must be gone from the count, the key list and the routing, and the key must be free for the
+// peer's next connection.
+func TestVerifC11Silent(t *testing.T) {
+	r := vNewRand(vSeed() + 1111)
+	scale := int64(vEnvInt("VERIF_SCALE", 25))
+	W := time.Duration(int64(20*time.Second) / scale)
+	P := time.Duration(int64(18*time.Second) / scale)
+	bound := W + P + 2*time.Second
+	skey, dead, live := vGenKey(r), vGenKey(r), vGenKey(r)
+	ls := vStartLibServer(skey, []ed25519.PublicKey{dead.Pub, live.Pub}, true)
+	defer vStop(ls.S, 5*time.Second)
+	c := vCase{Class: "silent-peer/from-the-start", Sig: fmt.Sprintf("silent/%d", scale)}
+	info := map[string]interface{}{"scale": scale, "pong_wait_ms": W.Milliseconds(), "ping_period_ms": P.Milliseconds(), "bound_ms": bound.Milliseconds()}
+	c.Info = info
+	listed := func(k vKeyPair) bool {
+		for _, p := range ls.S.GetConnectedPeerPublicKeys() {
+			if p == k.Static() {
+				return true
+			}
+		}
+		return false
+	}
+	// a bystander which keeps reading (and so answers pings) for the whole time
+	by, berr := vRawDial(ls.Addr, live, skey.Pub)
+	if berr == nil {
+		defer by.Close()
+		go func() {
+			for {
+				if _, _, err := by.ReadMessage(); err != nil {
+					return
+				}
+			}
+		}()
+	}
+	conn, err := vRawDial(ls.Addr, dead, skey.Pub)
+	if err != nil || berr != nil {
+		c.Fail = "handshake-failed"
+		info["outcome"] = fmt.Sprint(err, berr)
+		vEmit(c)
+		return
+	}
+	defer conn.Close()
+	// from here on the peer never reads again
+	if !vWaitUntil(3*time.Second, func() bool { return listed(dead) }) {
+		// dropped before it was ever seen, or never registered: nothing to observe
+		info["outcome"] = "never-listed"
+		c.Fail = "handshake-failed/not-registered"
+		vEmit(c)
+		return
+	}
+	start := time.Now()
+	gone := vWaitUntil(bound, func() bool { return !listed(dead) })
+	info["after_ms"] = time.Since(start).Milliseconds()
+	open := ls.S.OpenConnections()
+	info["open"] = open
+	info["bystander_listed"] = listed(live)
+	info["outcome"] = fmt.Sprintf("gone=%v", gone)
+	if !gone {
+		c.Fail = fmt.Sprintf("dead-peer-still-listed/after %v (pongWait %v, pingPeriod %v): open=%d", time.Since(start).Round(time.Millisecond), W, P, open)
+		vEmit(c)
+		return
+	}
+	// the count and the routing agree with the key list
+	want := 0
+	if listed(live) {
+		want = 1
+	}
+	if n := ls.S.OpenConnections(); n != want {
+		c.Fail = fmt.Sprintf("dead-peer-still-listed/count=%d although the key list has %d", n, want)
+	}
+	ctx, cancel := context.WithTimeout(context.Background(), 300*time.Millisecond)
+	ierr := ls.S.Invoke(peer.NewCallContext(ctx, dead.Static()), "Echo", vAppMsg("x", nil, ""), &message.Response{})
+	cancel()
+	if ierr != ErrNotConnected && c.Fail == "" {
+		c.Fail = "dead-peer-still-routed/" + fmt.Sprint(ierr)
+	}
+	// the key is free again: the peer's next connection is served
+	// (a few attempts: with scaled keepalive times a slow first answer on a loaded machine may cost the session)
+	why := ""
+	for attempt := 0; attempt < 3; attempt++ {
+		again, err := vRawDial(ls.Addr, dead, skey.Pub)
+		if err != nil {
+			why = err.Error()
+		} else {
+			why = vProbeWait(again, 3*time.Second)
+			again.Close()
+			if why == "served" {
+				break
+			}
+		}
+		vWaitUntil(2*time.Second, func() bool { return !listed(dead) })
+	}
+	info["reconnect"] = why
+	if why != "served" && c.Fail == "" {
+		c.Fail = "reconnect-after-dead-session-refused/" + why
+	}
+	vEmit(c)
 }
